@@ -3,8 +3,8 @@
 // cluster.go against a recording monitor (suite "cadence"), and prints one case
 // line per case (format: lean/Driver/C09.lean).
 //
-//   C09 h cap=<c> max=<a> orc=<T|F|R> ps=<peerset> <op>... => <obs>...
-//   C09 cad <inf|ping> <ttl ms> <error pattern> => pubs=<n> late=<l>
+//	C09 h cap=<c> max=<a> orc=<T|F|R> ps=<peerset> <op>... => <obs>...
+//	C09 cad <inf|ping> <ttl ms> <error pattern> => pubs=<n> late=<l>
 package main
 
 import (
@@ -107,7 +107,7 @@ func (c tcase) input() string {
 
 // ---------------------------------------------------------------- generation
 
-func genPeerset(r *common.Rng, nPeers int) peerset {
+func genPeerset(r *common.Rng, nPeers int, dups bool) peerset {
 	switch x := r.Intn(10); {
 	case x < 2:
 		return peerset{kind: 'n'}
@@ -120,6 +120,9 @@ func genPeerset(r *common.Rng, nPeers int) peerset {
 		if r.Chance(dens, 100) {
 			l = append(l, i)
 		}
+	}
+	if dups && len(l) > 0 && r.Chance(1, 6) { // a peer listed twice
+		l = append(l, l[r.Intn(len(l))])
 	}
 	for i := len(l) - 1; i > 0; i-- {
 		j := r.Intn(i + 1)
@@ -139,7 +142,7 @@ func gen(r *common.Rng, tier string, monitorOnly bool) tcase {
 	}
 	nNames := r.Range(1, 3)
 	nPeers := r.Range(1, 6)
-	c.ps0 = genPeerset(r, nPeers)
+	c.ps0 = genPeerset(r, nPeers, c.orc != 'R')
 	length := r.Range(4, 70)
 	if r.Chance(1, 6) {
 		length = r.Range(120, 320) // long enough to wrap a 25-slot window on the hot key
@@ -148,10 +151,18 @@ func gen(r *common.Rng, tier string, monitorOnly bool) tcase {
 		length = r.Range(0, 6)
 	}
 	hotN, hotP := r.Intn(nNames), r.Intn(nPeers)
-	hot := r.Range(0, 70)       // % of arrivals/removals aimed at the hot key
-	pExpired := r.Range(0, 70)  // % of arrivals born expired
-	pInvalid := r.Range(0, 30)  // % of arrivals not valid
-	stormy := r.Chance(1, 3)    // many checks
+	hot := r.Range(0, 70)      // % of arrivals/removals aimed at the hot key
+	pExpired := r.Range(0, 70) // % of arrivals born expired
+	pInvalid := r.Range(0, 30) // % of arrivals not valid
+	stormy := r.Chance(1, 3)   // many checks
+	switch r.Intn(16) {        // degenerate streams
+	case 0:
+		pExpired = 100
+	case 1:
+		pInvalid = 100
+	case 2:
+		pExpired, pInvalid = 0, 0
+	}
 	key := func() (int, int) {
 		if r.Chance(hot, 100) {
 			return hotN, hotP
@@ -179,7 +190,7 @@ func gen(r *common.Rng, tier string, monitorOnly bool) tcase {
 			}
 		case x < 68:
 			o.kind = 's'
-			o.ps = genPeerset(r, nPeers)
+			o.ps = genPeerset(r, nPeers, c.orc != 'R')
 		case monitorOnly:
 			continue
 		case x < 80 || (stormy && x < 92):
